@@ -373,6 +373,36 @@ def cell_case(cell, rng, idx):
     return {"sk": "module", "name": f"cm{idx}", "body": body, "cell": cell}
 
 
+# ------------------------------------------------------------------ constructor interfaces
+
+def constructor_cases(rng, start=0):
+    """a derived type and the generic interface of its name (its constructor): module default {none, public,
+    private} x accessibility of the type {none, attribute public/private, statement public/private} x which of
+    the two is declared first x statement before/after both, each among random declarations"""
+    out = []
+    for d in [None, "public", "private"]:
+        for how, acc in [(None, None), ("attr", "public"), ("attr", "private"), ("stmt", "public"), ("stmt", "private")]:
+            for type_first in (True, False):
+                for spos in (["before"] if how != "stmt" else ["before", "after"]):
+                    names = name_source(rng)
+                    tname = names()
+                    typ = ["type", tname, [acc] if how == "attr" else [], gen_tbody(rng, valid=True)]
+                    ctor = ["iface", "generic", respell(rng, tname)]
+                    pair = [typ, ctor] if type_first else [ctor, typ]
+                    if rng.random() < 0.5:
+                        pair.insert(1, noise_decl(rng, names))
+                    spec = [noise_decl(rng, names) for _ in range(rng.choice([0, 1]))] + pair \
+                        + [noise_decl(rng, names) for _ in range(rng.choice([0, 1]))]
+                    if how == "stmt":
+                        spec.insert(0 if spos == "before" else len(spec), ["access", acc, [respell(rng, tname)]])
+                    if d:
+                        spec.insert(rng.choice([0, len(spec)]), ["default", d])
+                    procs = [["proc", rng.random() < 0.5, names()] for _ in range(rng.choice([1, 2]))]
+                    out.append({"sk": "module", "name": f"kc{start + len(out)}", "body": spec + [["contains"]] + procs,
+                                "ctor": {"default": d, "how": how, "acc": acc, "type_first": type_first, "spos": spos}})
+    return out
+
+
 # ------------------------------------------------------------------ random stream
 
 def gen_tbody(rng, valid=True):
